@@ -59,7 +59,7 @@ class PackageLoader(BaseLoader):
             raise TemplateNotFoundError(template_name)
 
         # Add suffix self.ext if template name does not have a suffix.
-        if not template_path.suffix:
+        if template_path.name and not template_path.suffix:
             template_path = template_path.with_suffix(self.ext)
 
         for path in self.paths:
